@@ -221,6 +221,11 @@ class PyEval(MiniEval):
             v = self.ev(e.value, env)
             if isinstance(v, Tok) and "__getitem__" in v.attrs:
                 return v.attrs["__getitem__"](self.ev(e.slice, env))
+            if isinstance(v, Tok):
+                for c in v.attrs.get("__classes__", ()):
+                    fm = c.find_method("__getitem__")
+                    if fm is not None:
+                        return self.call_dunder(fm, v, [self.ev(e.slice, env)], env)
             if isinstance(v, dict):
                 k = self.ev(e.slice, env)
                 if k not in v:
@@ -269,6 +274,12 @@ class PyEval(MiniEval):
             if isinstance(base, dict):
                 base[self.ev(target.slice, env)] = value
                 return
+            if isinstance(base, Tok):
+                for c in base.attrs.get("__classes__", ()):
+                    fm = c.find_method("__setitem__")
+                    if fm is not None:
+                        self.call_dunder(fm, base, [self.ev(target.slice, env), value], env)
+                        return
             if isinstance(base, list) and not isinstance(target.slice, ast.Slice):
                 i = self.ev(target.slice, env)
                 if isinstance(i, int) and -len(base) <= i < len(base):
@@ -379,7 +390,15 @@ class PyEval(MiniEval):
         def A() -> list:
             nonlocal args
             if args is None:
-                args = [self.ev(a, env) for a in node.args]
+                args = []
+                for a in node.args:
+                    if isinstance(a, ast.Starred):
+                        sv = self.ev(a.value, env)
+                        if not isinstance(sv, (list, tuple)):
+                            raise Unsupported(f"splat of {sv!r}")
+                        args.extend(sv)
+                    else:
+                        args.append(self.ev(a, env))
             return args
 
         if isinstance(node.func, ast.Attribute):
@@ -406,6 +425,12 @@ class PyEval(MiniEval):
                 if not recv:
                     raise Raised("pop from empty list", "IndexError")
                 return recv.pop(*A())
+            if isinstance(recv, dict) and m == "pop" and 1 <= len(node.args) <= 2:
+                if A()[0] not in recv and len(A()) == 1:
+                    raise Raised(f"KeyError {A()[0]!r}", "KeyError")
+                return recv.pop(*A())
+            if isinstance(recv, dict) and m == "copy" and not node.args:
+                return dict(recv)
             if isinstance(recv, set) and m in ("add", "discard"):
                 getattr(recv, m)(A()[0])
                 return None
@@ -450,6 +475,8 @@ class PyEval(MiniEval):
             raise Unsupported("zip of non-sequences")
         if fn == "enumerate" and len(node.args) == 1 and isinstance(A()[0], (list, tuple)):
             return [(i, x) for i, x in enumerate(A()[0])]
+        if fn == "reversed" and len(node.args) == 1 and isinstance(A()[0], (list, tuple)):
+            return list(reversed(A()[0]))
         if fn in ("cast",) and len(node.args) == 2:
             return self.ev(node.args[1], env)  # the type argument is not evaluated
         if fn in ("list", "tuple") and len(node.args) == 1 and isinstance(A()[0], (list, tuple)):
@@ -520,6 +547,24 @@ class PyEval(MiniEval):
         for p, d in zip(params[len(params) - len(defaults):], defaults):
             if p not in new:
                 new[p] = self.ev(d, {})
+        self.depth += 1
+        try:
+            out = self.run(f.node.body, new)
+        finally:
+            self.depth -= 1
+        if out[0] == "raise":
+            raise Raised(f"{f.name}: {out[1]}", str(out[1]))
+        return out[1] if out[0] == "return" else None
+
+    def call_dunder(self, f: FuncInfo, recv: Any, vals: list, env: dict) -> Any:
+        """Interpret `recv[...]` / `recv[...] = v` through the repository class's dunder method."""
+        if self.depth >= self.max_depth:
+            raise Unsupported("call depth")
+        params = [a.arg for a in f.node.args.args]
+        new: dict = {k: v for k, v in env.items() if callable(v)}
+        new[params[0]] = recv
+        for p_, v in zip(params[1:], vals):
+            new[p_] = v
         self.depth += 1
         try:
             out = self.run(f.node.body, new)
